@@ -41,9 +41,9 @@ class Harness(cm.BaseB):
                 for s in WELLS:
                     out.append({"k": "part", "n": n, "first": s, "wells": WELLS})
         if tier == "thorough":
-            for s in WELLS4:
-                for d in WELLS4:
-                    out.append({"k": "part", "n": 4, "first": s, "first_d": d, "wells": WELLS4})
+            for s in WELLS:
+                for d in WELLS:
+                    out.append({"k": "part", "n": 4, "first": s, "first_d": d, "wells": WELLS})
         return out
 
     def cases(self, chunk):
